@@ -2003,3 +2003,564 @@ Proof.
   - apply contract_of_bool; [exact Hu|]. vm_compute. reflexivity.
   - vm_compute. reflexivity.
 Qed.
+
+(* ==== Context.count ============================================================================== *)
+Lemma upd_exteq a a' b v : exteq a a' -> exteq (upd a b v) (upd a' b v).
+Proof. intros H c. unfold upd. destruct (bit_eqb c b); auto. Qed.
+
+Lemma asgs_from_proper l : forall base base', exteq base base' ->
+  Forall2 exteq (asgs_from base l) (asgs_from base' l).
+Proof.
+  induction l as [|b r IH]; intros base base' H; cbn [asgs_from].
+  - constructor; auto.
+  - apply Forall2_app; apply IH; apply upd_exteq; auto.
+Qed.
+
+Definition proper (p : pred) : Prop := forall a a', exteq a a' -> p a = p a'.
+
+Lemma uses_only_proper univ p : uses_only univ p -> proper p.
+Proof. intros H a a' E. eapply uses_only_exteq; eauto. Qed.
+
+Lemma countZ_acc (p : pred) (l : list bitasg) : forall acc : Z,
+  fold_left (fun acc a => if p a then acc + 1 else acc) l acc = acc + countZ p l.
+Proof.
+  unfold countZ. induction l as [|a l IH]; intro acc; cbn [fold_left]; [lia|].
+  rewrite IH, (IH (if p a then 0 + 1 else 0)). destruct (p a); lia.
+Qed.
+
+Lemma countZ_cons p a l : countZ p (a :: l) = (if p a then 1 else 0) + countZ p l.
+Proof. unfold countZ at 1. cbn [fold_left]. rewrite countZ_acc. destruct (p a); lia. Qed.
+
+Lemma countZ_app p l1 l2 : countZ p (l1 ++ l2) = countZ p l1 + countZ p l2.
+Proof.
+  induction l1 as [|a l1 IH]; cbn [app]; [unfold countZ at 2; cbn; lia|].
+  rewrite !countZ_cons, IH. lia.
+Qed.
+
+Lemma countZ_Forall2 p l1 l2 : proper p -> Forall2 exteq l1 l2 ->
+  countZ p l1 = countZ p l2.
+Proof.
+  intros Hp H. induction H; auto. rewrite !countZ_cons, IHForall2, (Hp x y); auto.
+Qed.
+
+Lemma countZ_ext_in p q l : (forall a, In a l -> p a = q a) -> countZ p l = countZ q l.
+Proof.
+  induction l as [|a l IH]; intro H; auto.
+  rewrite !countZ_cons, IH by (intros; apply H; right; auto).
+  rewrite (H a) by (left; auto). reflexivity.
+Qed.
+
+Lemma countZ_nonneg p l : 0 <= countZ p l.
+Proof. induction l; [unfold countZ; cbn; lia|]. rewrite countZ_cons. destruct (p a); lia. Qed.
+
+Lemma upd_upd_same a b v v' : exteq (upd (upd a b v) b v') (upd a b v').
+Proof. intro c. unfold upd. destruct (bit_eqb c b); auto. Qed.
+
+Lemma upd_upd_comm a b c v w : b <> c ->
+  exteq (upd (upd a b v) c w) (upd (upd a c w) b v).
+Proof.
+  intros Hn x. unfold upd.
+  destruct (bit_eqb_spec x c), (bit_eqb_spec x b); subst; congruence.
+Qed.
+
+(* a bit the predicate does not read can be set in the base without changing
+   the number of models *)
+Lemma count_indep_bit p b v l : proper p -> indep p b -> forall base,
+  countZ p (asgs_from (upd base b v) l) = countZ p (asgs_from base l).
+Proof.
+  intros Hp Hi. induction l as [|c r IH]; intro base; cbn [asgs_from].
+  - rewrite !countZ_cons. rewrite Hi. reflexivity.
+  - rewrite !countZ_app. destruct (bit_eqb_spec b c) as [->|Hn].
+    + f_equal; apply countZ_Forall2; auto; apply asgs_from_proper; apply upd_upd_same.
+    + rewrite <- (IH (upd base c false)), <- (IH (upd base c true)).
+      f_equal; apply countZ_Forall2; auto; apply asgs_from_proper;
+        apply upd_upd_comm; auto.
+Qed.
+
+Lemma count_extra_bit p b l base : proper p -> indep p b ->
+  countZ p (asgs_from base (b :: l)) = 2 * countZ p (asgs_from base l).
+Proof.
+  intros Hp Hi. cbn [asgs_from]. rewrite countZ_app, !count_indep_bit by auto. lia.
+Qed.
+
+Lemma count_extra_bits p extra l base : proper p ->
+  (forall b, In b extra -> indep p b) ->
+  countZ p (asgs_from base (extra ++ l)) =
+  2 ^ Z.of_nat (List.length extra) * countZ p (asgs_from base l).
+Proof.
+  intros Hp Hi. induction extra as [|b r IH]; cbn [app List.length].
+  - change (2 ^ Z.of_nat 0) with 1. lia.
+  - rewrite count_extra_bit by (auto; apply Hi; left; auto).
+    rewrite IH by (intros; apply Hi; right; auto).
+    rewrite Nat2Z.inj_succ, Z.pow_succ_r by lia. lia.
+Qed.
+
+(* the number of models does not depend on the order of the bits *)
+Lemma count_perm p l l' : proper p -> Permutation l l' -> forall base,
+  countZ p (asgs_from base l) = countZ p (asgs_from base l').
+Proof.
+  intros Hp H. induction H; intro base; auto.
+  - cbn [asgs_from]. rewrite !countZ_app, !IHPermutation. reflexivity.
+  - cbn [asgs_from]. rewrite !countZ_app.
+    destruct (bit_eqb_spec x y) as [->|Hn]; [reflexivity|].
+    assert (G : forall v w, countZ p (asgs_from (upd (upd base y v) x w) l) =
+                            countZ p (asgs_from (upd (upd base x w) y v) l)).
+    { intros v w. apply countZ_Forall2; auto. apply asgs_from_proper.
+      apply upd_upd_comm. auto. }
+    rewrite !G. lia.
+  - rewrite IHPermutation1. auto.
+Qed.
+
+Lemma partition_perm {A} (f : A -> bool) l :
+  Permutation l (filter (fun x => negb (f x)) l ++ filter f l).
+Proof.
+  induction l as [|a l IH]; cbn [filter]; auto.
+  destruct (f a); cbn [negb app].
+  - apply Permutation_cons_app. auto.
+  - constructor. auto.
+Qed.
+
+(* slack: over any duplicate-free list of bits containing the support, the
+   number of models is the number over the support times 2^(extra bits) —
+   this is what dd's count(u, n) assumes of its argument n *)
+Theorem count_slack univ p l : uses_only univ p -> NoDup l ->
+  (forall b, In b (bsupport univ p) -> In b l) ->
+  NoDup (bsupport univ p) ->
+  countZ p (all_asgs l) =
+  countZ p (all_asgs (bsupport univ p)) *
+  2 ^ (Z.of_nat (List.length l) - Z.of_nat (List.length (bsupport univ p))).
+Proof.
+  intros Hu NDl Hincl NDs. set (s := bsupport univ p) in *.
+  pose proof (uses_only_proper univ p Hu) as Hp.
+  set (f := fun b => mem bit_eqb b s).
+  assert (P1 : Permutation l (filter (fun x => negb (f x)) l ++ filter f l))
+    by apply partition_perm.
+  assert (P2 : Permutation (filter f l) s).
+  { apply NoDup_Permutation; auto; [apply NoDup_filter; auto|].
+    intro b. rewrite filter_In. unfold f. rewrite (mem_spec bit_eqb bit_eqb_spec).
+    split; [tauto|]. intro Hb. split; auto. }
+  assert (P : Permutation l (filter (fun x => negb (f x)) l ++ s))
+    by (rewrite P1 at 1; apply Permutation_app_head; auto).
+  unfold all_asgs. rewrite (count_perm p _ _ Hp P).
+  rewrite count_extra_bits; auto.
+  - apply Permutation_length in P. rewrite app_length in P.
+    replace (Z.of_nat (List.length l) - Z.of_nat (List.length s))
+      with (Z.of_nat (List.length (filter (fun x => negb (f x)) l))) by lia.
+    lia.
+  - intros b Hb. apply filter_In in Hb. destruct Hb as [_ Hb].
+    apply (indep_not_in_support univ); auto. fold s.
+    unfold f in Hb. rewrite <- (mem_spec bit_eqb bit_eqb_spec).
+    destruct (mem bit_eqb b s); cbn in Hb; congruence.
+Qed.
+
+(* ---- counting the models of a disjoint cube cover ----------------------------------------------- *)
+Definition sumZ (l : list Z) : Z := fold_right Z.add 0 l.
+
+Definition cube_weight (n : nat) (c : cube) : Z :=
+  2 ^ (Z.of_nat n - Z.of_nat (List.length c)).
+
+Definition remove_key (b : bit) (c : cube) : cube :=
+  filter (fun bv => negb (bit_eqb (fst bv) b)) c.
+
+(* cubes compatible with  b = v  (those that do not mention b included) *)
+Definition compat (b : bit) (v : bool) (c : cube) : bool :=
+  match dict_get bit_eqb b c with Some x => Bool.eqb x v | None => true end.
+
+Definition restrict (b : bit) (v : bool) (cubes : list cube) : list cube :=
+  map (remove_key b) (filter (compat b v) cubes).
+
+Lemma remove_key_keys b c x :
+  In x (map fst (remove_key b c)) <-> In x (map fst c) /\ x <> b.
+Proof.
+  unfold remove_key. rewrite !in_map_iff. split.
+  - intros ([k v] & <- & Hin). apply filter_In in Hin. destruct Hin as [Hin Hn].
+    cbn [fst] in *. split; [exists (k, v); auto|].
+    destruct (bit_eqb_spec k b); cbn in Hn; congruence.
+  - intros [([k v] & <- & Hin) Hn]. exists (k, v). split; auto.
+    apply filter_In. split; auto. cbn [fst] in *.
+    destruct (bit_eqb_spec k b); cbn; congruence.
+Qed.
+
+Lemma remove_key_nodup b c : NoDup (map fst c) -> NoDup (map fst (remove_key b c)).
+Proof.
+  unfold remove_key. induction c as [|[k v] c IH]; intro H; cbn [filter map fst]; auto.
+  inversion H; subst. cbn [fst]. destruct (bit_eqb k b); cbn [negb map fst]; auto.
+  constructor; auto. intro Hin. apply H2.
+  apply in_map_iff in Hin. destruct Hin as ([k' v'] & E & Hin). apply filter_In in Hin.
+  apply in_map_iff. exists (k', v'). tauto.
+Qed.
+
+Lemma remove_key_get b c x : x <> b ->
+  dict_get bit_eqb x (remove_key b c) = dict_get bit_eqb x c.
+Proof.
+  intro Hn. unfold remove_key. induction c as [|[k v] c IH]; cbn [filter dict_get fst]; auto.
+  destruct (bit_eqb_spec k b) as [->|Hk]; cbn [negb dict_get].
+  - destruct (bit_eqb_spec x b); [contradiction|auto].
+  - rewrite IH. reflexivity.
+Qed.
+
+Lemma remove_key_length b c : NoDup (map fst c) ->
+  List.length (remove_key b c) =
+  (List.length c - (if mem bit_eqb b (map fst c) then 1 else 0))%nat.
+Proof.
+  unfold remove_key. induction c as [|[k v] c IH]; intro H; cbn [filter map fst mem]; auto.
+  inversion H; subst. specialize (IH H3). cbn [fst].
+  destruct (bit_eqb_spec k b) as [->|Hk]; cbn [negb List.length].
+  - destruct (bit_eqb_spec b b); [|congruence]. cbn [orb].
+    assert (E : mem bit_eqb b (map fst c) = false).
+    { apply not_true_is_false. rewrite (mem_spec bit_eqb bit_eqb_spec). auto. }
+    rewrite E in IH. lia.
+  - destruct (bit_eqb_spec b k); [congruence|]. cbn [orb]. rewrite IH.
+    destruct (mem bit_eqb b (map fst c)) eqn:E; [|lia].
+    apply (mem_spec bit_eqb bit_eqb_spec) in E.
+    destruct c; [destruct E|cbn [List.length]; lia].
+Qed.
+
+Lemma cube_holds_restrict b v c a : NoDup (map fst c) ->
+  cube_holds c (upd a b v) = compat b v c && cube_holds (remove_key b c) a.
+Proof.
+  intro ND. unfold compat.
+  induction c as [|[k x] c IH]; [reflexivity|].
+  inversion ND; subst. specialize (IH H2).
+  unfold cube_holds in *. cbn [forallb fst snd dict_get remove_key filter].
+  destruct (bit_eqb_spec b k) as [<-|Hk].
+  - rewrite upd_same. destruct (bit_eqb_spec b b); [|congruence]. cbn [negb].
+    assert (En : dict_get bit_eqb b c = None)
+      by (apply (dict_get_none bit_eqb bit_eqb_spec); auto).
+    rewrite En in IH. cbn [andb] in IH. fold (remove_key b c). rewrite IH.
+    destruct v, x; reflexivity.
+  - destruct (bit_eqb_spec k b); [congruence|]. cbn [negb forallb fst snd].
+    fold (remove_key b c). rewrite upd_other by auto. rewrite IH.
+    destruct (dict_get bit_eqb b c); [destruct (Bool.eqb b0 v)|]; cbn [andb];
+      try reflexivity; rewrite ?andb_false_r; reflexivity.
+Qed.
+
+Lemma existsb_restrict b v cubes a :
+  (forall c, In c cubes -> NoDup (map fst c)) ->
+  existsb (fun c => cube_holds c (upd a b v)) cubes =
+  existsb (fun c => cube_holds c a) (restrict b v cubes).
+Proof.
+  unfold restrict. induction cubes as [|c r IH]; intro H; [reflexivity|].
+  cbn [existsb filter]. rewrite cube_holds_restrict by (apply H; left; auto).
+  rewrite IH by (intros; apply H; right; auto).
+  destruct (compat b v c); cbn [andb map existsb]; reflexivity.
+Qed.
+
+Lemma conflict_restrict b v c1 c2 : NoDup (map fst c1) ->
+  compat b v c1 = true -> compat b v c2 = true ->
+  cubes_conflict c1 c2 = true ->
+  cubes_conflict (remove_key b c1) (remove_key b c2) = true.
+Proof.
+  unfold cubes_conflict, compat. intros ND H1 H2 H. apply existsb_exists in H.
+  destruct H as ([k x] & Hin & Hc). cbn [fst snd] in Hc.
+  destruct (dict_get bit_eqb k c2) as [y|] eqn:Ek; [|discriminate].
+  assert (Hk : k <> b).
+  { intro; subst k. rewrite Ek in H2.
+    rewrite (dict_get_nodup_in bit_eqb bit_eqb_spec b x c1 ND Hin) in H1.
+    apply eqb_prop in H1. apply eqb_prop in H2. subst.
+    rewrite eqb_reflx in Hc. discriminate. }
+  apply existsb_exists. exists (k, x). split.
+  - unfold remove_key. apply filter_In. split; auto. cbn [fst].
+    destruct (bit_eqb_spec k b); cbn; congruence.
+  - cbn [fst snd]. rewrite remove_key_get by auto. rewrite Ek. exact Hc.
+Qed.
+
+Lemma ordpairs_restrict b v cubes :
+  (forall c, In c cubes -> NoDup (map fst c)) ->
+  ForallOrdPairs (fun c1 c2 => cubes_conflict c1 c2 = true) cubes ->
+  ForallOrdPairs (fun c1 c2 => cubes_conflict c1 c2 = true) (restrict b v cubes).
+Proof.
+  unfold restrict. intros Hnd H. induction H as [|c l Hc Hl IH]; cbn [filter map].
+  - constructor.
+  - assert (IH' : ForallOrdPairs (fun c1 c2 => cubes_conflict c1 c2 = true)
+                    (map (remove_key b) (filter (compat b v) l)))
+      by (apply IH; intros; apply Hnd; right; auto).
+    destruct (compat b v c) eqn:Ec; auto. cbn [map]. constructor; auto.
+    apply Forall_forall. intros c' Hc'. apply in_map_iff in Hc'.
+    destruct Hc' as (c2 & <- & Hc2). apply filter_In in Hc2. destruct Hc2 as [Hc2 E2].
+    apply (conflict_restrict b v); auto.
+    + apply Hnd. left; auto.
+    + rewrite Forall_forall in Hc. auto.
+Qed.
+
+Lemma pow2_split n k : (k <= n)%nat -> (1 <= k)%nat ->
+  2 ^ (Z.of_nat n - Z.of_nat (k - 1)) = 2 * 2 ^ (Z.of_nat n - Z.of_nat k).
+Proof.
+  intros H1 H2. replace (Z.of_nat n - Z.of_nat (k - 1)) with (Z.succ (Z.of_nat n - Z.of_nat k)) by lia.
+  rewrite Z.pow_succ_r by lia. reflexivity.
+Qed.
+
+(* the weights of the two restrictions add up to the weights of the cubes *)
+Lemma sumZ_cons x l : sumZ (x :: l) = x + sumZ l.
+Proof. reflexivity. Qed.
+
+Lemma weight_restrict b n cubes :
+  (forall c, In c cubes -> NoDup (map fst c) /\ (List.length c <= S n)%nat /\
+      (mem bit_eqb b (map fst c) = false -> (List.length c <= n)%nat)) ->
+  sumZ (map (cube_weight n) (restrict b false cubes)) +
+  sumZ (map (cube_weight n) (restrict b true cubes)) =
+  sumZ (map (cube_weight (S n)) cubes).
+Proof.
+  unfold restrict. induction cubes as [|c r IH]; intro H; [reflexivity|].
+  assert (IH' := IH (fun c' Hc' => H c' (or_intror Hc'))). clear IH.
+  destruct (H c (or_introl eq_refl)) as (ND & Hlen & Hlen').
+  cbn [filter map]. rewrite sumZ_cons, <- IH'. clear IH'.
+  set (A := sumZ (map (cube_weight n) (map (remove_key b) (filter (compat b false) r)))).
+  set (B := sumZ (map (cube_weight n) (map (remove_key b) (filter (compat b true) r)))).
+  pose proof (remove_key_length b c ND) as Hrl.
+  destruct (dict_get bit_eqb b c) as [x|] eqn:Eb.
+  - assert (Hm : mem bit_eqb b (map fst c) = true).
+    { apply (mem_spec bit_eqb bit_eqb_spec).
+      apply (dict_get_in bit_eqb bit_eqb_spec) in Eb. apply in_map_iff. exists (b, x). auto. }
+    rewrite Hm in Hrl.
+    assert (1 <= List.length c)%nat.
+    { apply (dict_get_in bit_eqb bit_eqb_spec) in Eb. destruct c; [destruct Eb|cbn; lia]. }
+    assert (Ew : cube_weight n (remove_key b c) = cube_weight (S n) c).
+    { unfold cube_weight. rewrite Hrl. f_equal. lia. }
+    assert (Cf : compat b false c = negb x) by (unfold compat; rewrite Eb; destruct x; reflexivity).
+    assert (Ct : compat b true c = x) by (unfold compat; rewrite Eb; destruct x; reflexivity).
+    rewrite Cf, Ct. destruct x; cbn [negb map]; rewrite ?sumZ_cons, ?Ew; fold A; fold B; lia.
+  - assert (Hm : mem bit_eqb b (map fst c) = false).
+    { apply not_true_is_false. rewrite (mem_spec bit_eqb bit_eqb_spec).
+      apply (dict_get_none bit_eqb bit_eqb_spec). auto. }
+    rewrite Hm in Hrl. specialize (Hlen' Hm).
+    assert (Ew : 2 * cube_weight n (remove_key b c) = cube_weight (S n) c).
+    { unfold cube_weight. rewrite Hrl, Nat.sub_0_r.
+      replace (Z.of_nat (S n) - Z.of_nat (List.length c))
+        with (Z.succ (Z.of_nat n - Z.of_nat (List.length c))) by lia.
+      rewrite Z.pow_succ_r by lia. reflexivity. }
+    assert (Cf : compat b false c = true) by (unfold compat; rewrite Eb; reflexivity).
+    assert (Ct : compat b true c = true) by (unfold compat; rewrite Eb; reflexivity).
+    rewrite Cf, Ct. cbn [map]. rewrite !sumZ_cons. fold A. fold B. lia.
+Qed.
+
+(* the models of a predicate covered by pairwise disjoint cubes over the bits l
+   are counted by the cubes' weights *)
+Theorem cubes_count l : NoDup l -> forall cubes p base, proper p ->
+  (forall c, In c cubes -> NoDup (map fst c) /\ forall b, In b (map fst c) -> In b l) ->
+  ForallOrdPairs (fun c1 c2 => cubes_conflict c1 c2 = true) cubes ->
+  (forall a, p a = existsb (fun c => cube_holds c a) cubes) ->
+  countZ p (asgs_from base l) = sumZ (map (cube_weight (List.length l)) cubes).
+Proof.
+  induction l as [|b r IH]; intros NDl cubes p base Hp Hc Hd Hcov.
+  - cbn [asgs_from List.length]. rewrite countZ_cons.
+    replace (countZ p []) with 0 by reflexivity. rewrite Hcov.
+    assert (Hnil : forall c, In c cubes -> c = []).
+    { intros c Hin. destruct (Hc c Hin) as [_ Hk]. destruct c as [|[k v] c]; auto.
+      destruct (Hk k (or_introl eq_refl)). }
+    destruct cubes as [|c1 [|c2 rest]].
+    + reflexivity.
+    + rewrite (Hnil c1 (or_introl eq_refl)). reflexivity.
+    + exfalso. inversion Hd as [|? ? Hf _]; subst. inversion Hf; subst.
+      rewrite (Hnil c1 (or_introl eq_refl)) in H1. discriminate.
+  - inversion NDl as [|? ? Hb NDr]; subst.
+    cbn [asgs_from]. rewrite countZ_app.
+    assert (Hnd : forall c, In c cubes -> NoDup (map fst c)) by (intros; apply Hc; auto).
+    assert (G : forall v, countZ p (asgs_from (upd base b v) r) =
+                          sumZ (map (cube_weight (List.length r)) (restrict b v cubes))).
+    { intro v.
+      rewrite (countZ_ext_in p (fun a => p (upd a b v))).
+      2:{ intros a Ha. apply Hp. intro c. unfold upd.
+          destruct (bit_eqb_spec c b) as [->|]; auto.
+          rewrite (asgs_from_spec r _ a Ha b Hb). apply upd_same. }
+      apply IH; auto.
+      - intros a a' E. apply Hp. apply upd_exteq. auto.
+      - intros c' Hc'. unfold restrict in Hc'. apply in_map_iff in Hc'.
+        destruct Hc' as (c & <- & Hin). apply filter_In in Hin. destruct Hin as [Hin _].
+        destruct (Hc c Hin) as [ND Hk]. split; [apply remove_key_nodup; auto|].
+        intros x Hx. apply remove_key_keys in Hx. destruct Hx as [Hx Hn].
+        destruct (Hk x Hx) as [E|]; [congruence|auto].
+      - apply ordpairs_restrict; auto.
+      - intro a. rewrite Hcov. apply existsb_restrict. auto. }
+    rewrite !G. cbn [List.length]. apply weight_restrict.
+    intros c Hin. destruct (Hc c Hin) as [ND Hk]. split; auto.
+    assert (Hl : (List.length (map fst c) <= List.length (b :: r))%nat)
+      by (apply NoDup_incl_length; auto).
+    rewrite map_length in Hl. cbn [List.length] in Hl. split; auto.
+    intro Hm.
+    assert (Hl' : (List.length (map fst c) <= List.length r)%nat).
+    { apply NoDup_incl_length; auto. intros x Hx. destruct (Hk x Hx) as [<-|]; auto.
+      exfalso. apply (mem_spec bit_eqb bit_eqb_spec) in Hx. congruence. }
+    rewrite map_length in Hl'. exact Hl'.
+Qed.
+
+(* ---- Context.count ---------------------------------------------------------------------------------- *)
+Lemma bitnames_nodup x d : NoDup (bitnames x d).
+Proof.
+  destruct d; cbn [bitnames].
+  - constructor; [intros []|constructor].
+  - apply FinFun.Injective_map_NoDup; [|apply seq_NoDup].
+    intros i j E. inversion E; auto.
+Qed.
+
+Lemma all_bits_nodup t : NoDup (map fst t) -> NoDup (all_bits t).
+Proof.
+  unfold all_bits. induction t as [|[x d] r IH]; intro H; cbn [flat_map map fst snd].
+  - constructor.
+  - inversion H; subst. apply nodup_app; auto; [apply bitnames_nodup|].
+    intros b Hb Hb'. apply in_bitnames in Hb. destruct Hb as [Hx _].
+    apply in_flat_map in Hb'. destruct Hb' as ([y dy] & Hin & Hb'). cbn [fst snd] in Hb'.
+    apply in_bitnames in Hb'. destruct Hb' as [Hy _].
+    apply H2. apply in_map_iff. exists (y, dy). split; auto. cbn. congruence.
+Qed.
+
+Lemma refine_vars_spec cv t : (forall x, In x cv -> exists d, tlookup x t = Some d) ->
+  exists bits, refine_vars cv t = Some bits /\ NoDup bits /\
+    care_bits_of t (Some cv) = Some (Some bits) /\
+    forall b, In b bits <->
+      exists x d, In x cv /\ tlookup x t = Some d /\ In b (bitnames x d).
+Proof.
+  intro Hd. destruct cv as [|c0 cr].
+  - exists []. split; [reflexivity|]. split; [constructor|]. split; [reflexivity|].
+    intro b. split; [intros []|intros (x & d & [] & _)].
+  - destruct (bit_table_spec (c0 :: cr) t Hd) as (bs & E & ND & Hin).
+    exists bs. unfold refine_vars, care_bits_of. rewrite E. auto.
+Qed.
+
+(* Context.count = the number of assignments to the bits of the care variables
+   that satisfy u *)
+Theorem count_spec t u care_vars s : wf_tbl t -> uses_only (all_bits t) u ->
+  ctx_support t u = Some s ->
+  let cv := match care_vars with Some c => c | None => s end in
+  (forall x, In x s -> In x cv) ->
+  (forall x, In x cv -> exists d, tlookup x t = Some d) ->
+  exists bits, refine_vars cv t = Some bits /\ NoDup bits /\
+    ctx_count t u care_vars = Some (countZ u (all_asgs bits)).
+Proof.
+  intros Hwf Hu Es cv Hcov Hd. pose proof Hwf as [ND _].
+  destruct (refine_vars_spec cv t Hd) as (bits & Er & NDb & _ & Hin).
+  exists bits. split; auto. split; auto.
+  destruct (ctx_support_bits t u) as (s' & Es' & _ & Hs). rewrite Es in Es'.
+  inversion Es'; subst s'. clear Es'.
+  assert (Hsub : forall b, In b (bsupport (all_bits t) u) -> In b bits).
+  { intros b Hb. apply Hin.
+    destruct (declared_bit_lookup t b Hwf (bsupport_incl _ _ _ Hb)) as (d & Hl & Hbn).
+    exists (fst b), d. split; auto. apply Hcov. apply Hs. eauto. }
+  assert (NDs : NoDup (bsupport (all_bits t) u))
+    by (apply NoDup_filter; apply all_bits_nodup; auto).
+  unfold ctx_count. rewrite Es. fold cv.
+  replace (match care_vars with Some c => c | None => s end) with cv by reflexivity.
+  assert (Hss : subset String.eqb s cv = true)
+    by (apply (subset_spec String.eqb string_eqb_spec'); auto).
+  rewrite Hss. cbn [negb]. rewrite Er. unfold bcount.
+  assert (Hlen : (List.length (bsupport (all_bits t) u) <= List.length bits)%nat)
+    by (apply NoDup_incl_length; auto).
+  destruct (Z.ltb_spec (Z.of_nat (List.length bits))
+              (Z.of_nat (List.length (bsupport (all_bits t) u)))); [lia|].
+  f_equal. symmetry. apply (count_slack (all_bits t)); auto.
+Qed.
+
+Lemma take_product_length sets model :
+  (forall x vals, In (x, vals) sets -> List.length vals = 1%nat) ->
+  List.length (take_product sets model) = 1%nat.
+Proof.
+  induction sets as [|[x vals] r IH]; intro H; [reflexivity|].
+  cbn [take_product].
+  assert (Hr : List.length (take_product r model) = 1%nat)
+    by (apply IH; intros; eapply H; right; eauto).
+  assert (Hv : List.length vals = 1%nat) by (apply (H x); left; auto).
+  destruct (take_product r model) as [|m [|? ?]]; cbn in Hr; try lia.
+  destruct vals as [|v [|? ?]]; cbn in Hv; try lia. reflexivity.
+Qed.
+
+Lemma enumerate_int_total_length bs : bs <> [] ->
+  (forall ob, In ob bs -> ob <> None) -> List.length (enumerate_int bs) = 1%nat.
+Proof.
+  intros Hne Hall. unfold enumerate_int. rewrite enumerate_expand by lia.
+  rewrite map_length. pose proof (expand_count bs Hne) as Hc.
+  assert (E : filter (fun b : option bool => match b with None => true | _ => false end) bs = []).
+  { clear - Hall. induction bs as [|ob bs IH]; auto. cbn [filter].
+    destruct ob; [apply IH; intros; apply Hall; right; auto|].
+    exfalso. apply (Hall None); [left; auto|reflexivity]. }
+  rewrite E in Hc. cbn in Hc. lia.
+Qed.
+
+Lemma length_concat_ones {A} (ls : list (list A)) :
+  (forall l, In l ls -> List.length l = 1%nat) ->
+  List.length (List.concat ls) = List.length ls.
+Proof.
+  induction ls as [|l ls IH]; intro H; [reflexivity|].
+  cbn [List.concat List.length]. rewrite app_length, (H l) by (left; auto).
+  rewrite IH by (intros; apply H; right; auto). reflexivity.
+Qed.
+
+Lemma sumZ_ones {A} (f : A -> Z) l : (forall x, In x l -> f x = 1) ->
+  sumZ (map f l) = Z.of_nat (List.length l).
+Proof.
+  induction l as [|a l IH]; intro H; [reflexivity|].
+  cbn [map List.length]. rewrite sumZ_cons, (H a) by (left; auto).
+  rewrite IH by (intros; apply H; right; auto). lia.
+Qed.
+
+(* count = number of dictionaries yielded, for an explicit care set that covers
+   the support and any cubes meeting the contract of dd.pick_iter *)
+Theorem count_eq_yield t u cv cb cubes s : wf_tbl t -> uses_only (all_bits t) u ->
+  ctx_support t u = Some s ->
+  (forall x, In x s -> In x cv) ->
+  (forall x, In x cv -> exists d, tlookup x t = Some d) ->
+  care_bits_of t (Some cv) = Some cb ->
+  contract (all_bits t) u cb cubes ->
+  exists n ds, ctx_count t u (Some cv) = Some n /\
+    ctx_pick_iter t u (Some cv) cubes = Some ds /\
+    n = Z.of_nat (List.length ds) /\ n = Z.of_nat (List.length cubes).
+Proof.
+  intros Hwf Hu Es Hcov Hd Hcare Hct. pose proof Hwf as [ND Hwfh].
+  destruct (count_spec t u (Some cv) s Hwf Hu Es Hcov Hd) as (bits & Er & NDb & Ec).
+  destruct (refine_vars_spec cv t Hd) as (bits' & Er' & _ & Ecb & Hin).
+  rewrite Er in Er'. inversion Er'; subst bits'. clear Er'.
+  rewrite Ecb in Hcare. inversion Hcare; subst cb. clear Hcare.
+  destruct (ctx_support_bits t u) as (s' & Es' & _ & Hs). rewrite Es in Es'.
+  inversion Es'; subst s'. clear Es'.
+  assert (Hsub : forall b, In b (bsupport (all_bits t) u) -> In b bits).
+  { intros b Hb. apply Hin.
+    destruct (declared_bit_lookup t b Hwf (bsupport_incl _ _ _ Hb)) as (d & Hl & Hbn).
+    exists (fst b), d. split; auto. apply Hcov. apply Hs. eauto. }
+  (* every cube assigns exactly the care bits *)
+  assert (Hkeys : forall c, In c cubes ->
+            NoDup (map fst c) /\ (forall b, In b (map fst c) <-> In b bits)).
+  { intros c Hc. destruct (ct_ok _ _ _ _ Hct c Hc) as [NDc _]. split; auto.
+    intro b. split.
+    - intro Hb. destruct (ct_keys _ _ _ _ Hct c b Hc Hb); auto.
+    - intro Hb. apply (ct_care _ _ _ _ Hct c b Hc Hb). }
+  eexists _, _. split; [exact Ec|].
+  split; [apply (pick_iter_value t u (Some cv) (Some bits) cubes); auto|].
+  assert (Hn : countZ u (all_asgs bits) = Z.of_nat (List.length cubes)).
+  { unfold all_asgs.
+    rewrite (cubes_count bits NDb cubes u zero_asg (uses_only_proper _ _ Hu)).
+    - apply sumZ_ones. intros c Hc. destruct (Hkeys c Hc) as [NDc Hk].
+      unfold cube_weight.
+      assert (List.length (map fst c) = List.length bits).
+      { apply Nat.le_antisymm; apply NoDup_incl_length; auto; intros b Hb; apply Hk; auto. }
+      rewrite map_length in H. rewrite H, Z.sub_diag. reflexivity.
+    - intros c Hc. destruct (Hkeys c Hc) as [NDc Hk]. split; auto. intros b Hb. apply Hk; auto.
+    - apply (ct_disjoint _ _ _ _ Hct).
+    - apply (ct_cover _ _ _ _ Hct). }
+  split; [|exact Hn]. rewrite Hn. f_equal. symmetry.
+  rewrite length_concat_ones; [apply map_length|].
+  intros Lc HLc. apply in_map_iff in HLc. destruct HLc as (c & <- & Hc).
+  destruct (Hkeys c Hc) as [NDc Hk].
+  apply take_product_length. intros x vals Hx. apply int_sets_spec_in in Hx.
+  destruct Hx as (h & Hxin & Et & ->).
+  assert (Hlp : List.length (pbits c x h) = wnat h)
+    by (unfold pbits; cbn [bitnames]; rewrite !map_length, seq_length; reflexivity).
+  apply enumerate_int_total_length.
+  - destruct (pbits c x h) eqn:Ep; [|discriminate]. cbn in Hlp.
+    destruct (Hwfh x h Hxin) as [H1 _]. unfold wnat in Hlp. lia.
+  - (* x is a care variable, so all its bits are in the cube *)
+    unfold touched in Et. apply existsb_exists in Et. destruct Et as (b0 & Hb0 & Hm0).
+    apply (mem_spec bit_eqb bit_eqb_spec) in Hm0. apply Hk in Hm0. apply Hin in Hm0.
+    destruct Hm0 as (x' & d' & Hx' & Hl' & Hbn').
+    apply in_bitnames in Hb0. apply in_bitnames in Hbn'.
+    assert (x' = x) by (destruct Hb0, Hbn'; congruence). subst x'.
+    assert (d' = DInt h) by (pose proof (in_tlookup t x _ ND Hxin); congruence). subst d'.
+    intros ob Hob. apply in_app_iff in Hob. destruct Hob as [Hob|Hob].
+    + unfold pbits in Hob. apply in_map_iff in Hob. destruct Hob as (b & <- & Hb).
+      intro En. apply (dict_get_none bit_eqb bit_eqb_spec) in En. apply En.
+      apply Hk. apply Hin. exists x, (DInt h). auto.
+    + apply in_map_iff in Hob. destruct Hob as (sb & <- & _). discriminate.
+Qed.
+
+(* with care_vars = None the count is the count for care_vars = support *)
+Lemma count_default t u s : ctx_support t u = Some s ->
+  ctx_count t u None = ctx_count t u (Some s).
+Proof. intro Es. unfold ctx_count. rewrite Es. reflexivity. Qed.
